@@ -96,6 +96,9 @@ def muxing_entries(cx):
 
 
 def check(prog, run):
+    run.rule("R6", "equivalent routes to one attribute agree: every API setter of title / language / creation time stores the parameter itself (C18.R5 instances)")
+    from . import c18
+    c18.verbatim_setters(prog, run, "R6")
     run.rule("R1", "no ambient effect (clock, rng, env, fs, process, thread, net, atomics, TypeId, hash order, statics, unclassified dependency calls) is reachable from a public muxing entry point; thread-local access only through the write-only log")
     run.rule("R2", "thread-local log is write-only on the muxing path: every LocalKey::with closure reachable from muxing returns () and stores nothing into captured state; log readers are unreachable from muxing")
     run.rule("R3", "the generic sink is used only through std::io::Write (no TypeId/Any/downcast on it)")
